@@ -35,11 +35,11 @@ def valid(ctx, name, m, dig, minb, maxb, split, tier, timeout):
                         m, max(minb, 10 ** (dig - 1)), min(maxb, 10 ** dig - 1), dig, 'every sockRead request delivered in at most two chunks with an arbitrary split point' if split else 'every receiveBytes call returns an arbitrary 1..n bytes (all chunkings)', SCALE),
                     desc='valid stream is returned byte-identical, in order, consuming exactly its bytes'))
 
-def corrupt(ctx, name, L, fixp, mode, tier, timeout, kfdefs, lenc=None, tpl=0, backend='default'):
+def corrupt(ctx, name, L, fixp, mode, tier, timeout, kfdefs, lenc=None, tpl=0, backend='default', fldw=10):
     """mode: 'all' = every chunking, 'split' = one arbitrary split point per request, 'whole' = one chunk per request"""
     chunk = max(13, L - 13)
-    defs = kfdefs + ['L=%d' % L, 'FIXP=%d' % fixp, 'TPL=%d' % tpl, 'STREAM_MAX=%d' % L, 'VF_CHUNK_MAX=%d' % chunk, 'VF_MAXCOPY=%d' % max(L + 1, 26)] + {'all': [], 'split': ['VF_SPLIT1'], 'whole': ['VF_WHOLE']}[mode] + (['LENC=%d' % lenc] if lenc else [])
-    shape = {0: 'arbitrary bytes', 1: 'bytes of the shape "8=FIX.4.2|9=" <1 arbitrary byte> SOH <arbitrary bytes>', 2: 'bytes of the shape "8=FIX.4.2|9=" <10 arbitrary bytes> SOH <arbitrary bytes>',
+    defs = kfdefs + ['L=%d' % L, 'FIXP=%d' % fixp, 'TPL=%d' % tpl, 'FLDW=%d' % fldw, 'STREAM_MAX=%d' % L, 'VF_CHUNK_MAX=%d' % chunk, 'VF_MAXCOPY=%d' % max(L + 1, 26)] + {'all': [], 'split': ['VF_SPLIT1'], 'whole': ['VF_WHOLE']}[mode] + (['LENC=%d' % lenc] if lenc else [])
+    shape = {0: 'arbitrary bytes', 1: 'bytes of the shape "8=FIX.4.2|9=" <1 arbitrary byte> SOH <arbitrary bytes>', 2: 'bytes of the shape "8=FIX.4.2|9=" <%d arbitrary bytes> SOH <arbitrary bytes> (BodyLength text of every digit count 0..%d, every digit symbolic: all values incl. 2^32-20..2^32-1 and those wrapping unsigned)' % (fldw, fldw),
              3: 'bytes of the shape <13 arbitrary bytes> "1"* SOH', 4: 'bytes of the shape "8=FIX.4.2|9" <3 arbitrary bytes> SOH <arbitrary bytes>'}[tpl]
     ctx.add(Harness(name, VERIF + '/harness/C15_corrupt.c', defines=defs, unwind=4, backend=backend,
                     unwindset=us(L + 2, L - 13 + 2, {'all': chunk + 2, 'split': 4, 'whole': 3}[mode], chunk + 1, L + 2, max(L + 1, 26) + 2, strlen=L + 2),
@@ -63,6 +63,7 @@ def run(ctx):
     valid(ctx, 'C15_valid_m2_d1_split', 2, 1, 1, 9, True, t, 3000)
     valid(ctx, 'C15_valid_m1_d2_all', 1, 2, 10, 12, False, t, 3000)
     valid(ctx, 'C15_valid_m2_d2_all', 2, 2, 10, 11, False, t, 3000)
+    corrupt(ctx, 'C15_len12_L38_whole', 38, 12, 'whole', t, 3000, defs, lenc=38, tpl=2, fldw=12)   # twelve-byte BodyLength field
     corrupt(ctx, 'C15_len_L34_split', 34, 12, 'split', t, 3000, defs)
     corrupt(ctx, 'C15_any_L20_split', 20, 0, 'split', t, 3000, defs)
     corrupt(ctx, 'C15_any_L24_all', 24, 0, 'all', t, 3000, defs)
@@ -82,7 +83,7 @@ def _exe(ctx):
 def _run(exe, st, nmsg, chunks):
     hexs = ''.join('%02x' % (int(b) & 255) for b in st)
     import subprocess
-    r = subprocess.run([exe, hexs or '-', str(nmsg)] + [str(int(k)) for k in chunks], stdout=subprocess.PIPE, stderr=subprocess.STDOUT, text=True, errors='replace',
+    r = subprocess.run([exe, hexs or '-', str(nmsg)] + [str(int(k)) for k in chunks], stdout=subprocess.PIPE, stderr=subprocess.STDOUT, text=True, errors='replace', cwd=os.environ.get('VF_TMP', '/tmp'),
                        env=dict(os.environ, ASAN_OPTIONS='detect_leaks=0'))          # (exception texts echo raw stream bytes)
     out = ''.join(ch if 32 <= ord(ch) < 127 or ch == '\n' else '.' for ch in r.stdout.strip())
     m = re.search(r'ERROR: AddressSanitizer: (\S+).*?(?:WRITE|READ) of size \d+', out, re.S)
@@ -110,4 +111,7 @@ def replay(ctx, cx, h=None):
         st2 = st[:13] + [st[13]] * (2048 - 24) + st[13:]
         bad, what2 = _run(exe, st2, nmsg, [])
         if bad: return True, 're-scaled to the real FIX8_MAX_FLD_LENGTH=2048 (digit run extended by 2024 bytes): ' + what2
+    # the solver's stream is short: a reader that accepted an oversized length only overruns its buffer if the peer keeps sending
+    bad, what3 = _run(exe, st + [120] * 9000, nmsg, [])
+    if bad: return True, 'stream continued with 9000 filler bytes (peer keeps sending): ' + what3
     return False, what
